@@ -509,7 +509,7 @@ package core
 //@   pure
 //@   opt deterministic on
 
-//@ func core.makeKeySafe property C11
+//@ func core.makeKeySafe property C11 C03
 //@   pure
 //@   ensures result == fn("net/url.PathEscape", k)
 
@@ -526,7 +526,7 @@ package core
 
 // Ghost events: cachecount[m] counts cache() calls on metadata m, lastcached[m] is the last name.
 // A notification of another attempt (different uniquifier) is ignored.
-//@ func core.Metadata.cache property C11 C05
+//@ func core.Metadata.cache property C11 C05 C02
 //@   modifies mapof(self.contents), mapof(self.readCache), held(self.mutex)
 //@   effect cachecount self
 //@   effect lastcached self := name
@@ -541,7 +541,7 @@ package core
 //@   ensures @only forall m *core.Metadata :: ghost(cachecount)[m] != old(ghost(cachecount)[m]) ==> m == (hasprefix(state, "split_") ? old(self.split_metadata) : (hasprefix(state, "join_") ? old(self.join_metadata) : old(self.metadata)))
 
 // getFork returns one of the node's forks: by position when the index is a number in range, else the fork whose journal name ends in exactly that index.
-//@ func core.Node.getFork property C11
+//@ func core.Node.getFork property C11 C02
 //@   pure
 //@   let l = len(fn(syntax.CallGraphNode.GetFqid, self.call)) + 5
 //@   let byindex = isnil(fn(strconv.Atoi, index).1) && fn(strconv.Atoi, index).0 >= 0 && fn(strconv.Atoi, index).0 < len(self.forks)
@@ -833,7 +833,7 @@ package core
 // (the call is the event; what is verified of the body: what goes into the fork id is exactly
 // the percent-escaped key - every key is escaped, also one that already looks escaped, so the
 // escaping stays injective)
-//@ func core.writeSafeKey property C11
+//@ func core.writeSafeKey property C11 C03
 //@   effect keywritten k
 //@   requires buf != nil
 //@   ensures @escaped ghost(sbwrote)[buf] == fn("net/url.PathEscape", k0)
